@@ -104,16 +104,28 @@ theorem verdict_correct {fuel : Nat} {cnf : CNF} {o : Oracle} :
 example : (∃ σ, Sat σ exSat) ∧ ¬ ∃ σ, Sat σ exUnsat :=
   ⟨verdict_correct.1 _ exSat_run, verdict_correct.2 _ _ exUnsat_run⟩
 
+/-- `unit_propagate` needs at most one round per variable: with more fuel than variables (the main
+loop passes `nvars + 2`) the model's inner loop never runs out — every propagation assigns a variable
+that was unassigned.  `vs` is any list containing the variables of the clauses. -/
+theorem unit_propagate_fuel_suffices {vs : List Nat} {cnf : CNF}
+    (hvs : ∀ c ∈ cnf, ∀ l ∈ c, l.1 ∈ vs) (fuel : Nat) (tr : Trail) (level : Nat)
+    (h : vs.length < fuel) : (unitPropagate fuel cnf tr level).1 ≠ .outOfFuel :=
+  unitPropagate_fuel_suffices hvs fuel tr level
+    (Nat.lt_of_le_of_lt (freeVars_le vs tr) h)
+
+example : (unitPropagate 3 [[(0, true)], [(0, false), (1, true)]] [] 0).1 = .sat := by rfl
+
 /-- `solve_cnf` never raises: the `assert` in `analyze_conflict`, the clause lookups and the
-`clause[-2]` / `assigns[name]` indexing in `backtrack` cannot fail, for any CNF and any set order.
-(The only other outcome of the model is running out of the fuel that stands in for `while True`;
-termination itself is not proved.) -/
+`clause[-2]` / `assigns[name]` indexing in `backtrack` cannot fail, for any CNF and any set order;
+nor does the inner fuel of `unit_propagate` run out (`.propFuel`).  The only other outcome of the
+model is `.outOfFuel`: the fuel argument, which stands in for `while True` of the main loop and of
+`analyze_conflict`, was too small; termination itself is not proved. -/
 theorem no_crash {fuel : Nat} {cnf : CNF} {o : Oracle} {e : Err}
     (h : solveCnf fuel cnf o = .error e) : e = .outOfFuel :=
   (solveCnf_spec fuel cnf o).2.2 e h
 
 example : solveCnf 1 exUnsat ⟨[0,1],[]⟩ = .error .outOfFuel := by rfl
-example : solveCnf 100 exUnsat ⟨[0,1],[]⟩ ≠ .error .assertion := fun h => by cases no_crash h
+example : solveCnf 100 exUnsat ⟨[0,1],[]⟩ ≠ .error .propFuel := fun h => by cases no_crash h
 
 /-! ### Tseitin rules, regenerated from `library/sat.json` on every run (Gen.lean) -/
 
@@ -150,26 +162,60 @@ example : Sat (fun n => n == 2) (Gen.encode_conj_cnf 0 1 2) :=
 
 /-! ### Tseitin encoding -/
 
-/-- The CNF of `tseitin.encode(f)` (one variable per distinct subterm, the clauses of each
-subterm's rule, the unit clause of the top variable) is satisfiable iff `f` is. -/
-theorem tseitin_equisat (f : Form) : (∃ σ, Sat σ (tseitin f)) ↔ (∃ ρ, Form.eval ρ f = true) :=
-  tseitinWith_equisat fun _ => mem_dedupF
+/-- `tseitin.encode(f)` (after the fix of the auxiliary names): whenever the model's `encode`
+answers — it does for every numbering that lists the subterms once, children first, see
+`tseitin_succeeds` — the rewriting passes have turned `f` into its variable, the CNF consists of
+the clauses of each subterm's rule and that variable's unit clause, and it is satisfiable iff `f`
+is.  `extra` = names of variables inside atoms that are not variables, `o` = order of
+`term_ord.sorted_terms`; both arbitrary. -/
+theorem tseitin_equisat {f : Form} {extra : List Nat} {o : List Form} {cnf : CNF}
+    (h : tseitinOrd f extra o = some cnf) :
+    (∃ σ, Sat σ cnf) ↔ (∃ ρ, Form.eval ρ f = true) :=
+  tseitinOrd_equisat h
 
-/-- ... whatever order `term_ord.sorted_terms` numbers the subterms in. -/
-theorem tseitin_equisat_any_order (f : Form) (o : List Form) :
-    (∃ σ, Sat σ (tseitinOrd f o)) ↔ (∃ ρ, Form.eval ρ f = true) :=
-  tseitinOrd_equisat f o
+/-- ... and `encode` does answer for such a numbering. -/
+theorem tseitin_succeeds {f : Form} (extra : List Nat) {o : List Form}
+    (h : orderOK o f = true) : ∃ cnf, tseitinOrd f extra o = some cnf :=
+  tseitinOrd_isSome extra h
 
-/-- `(a ∧ ¬a) ∨ b`: five variables, nine clauses; satisfiable because the formula is. -/
-def exForm : Form := .or (.and (.atom 0) (.not (.atom 0))) (.atom 1)
-example : tseitin exForm =
-    [[(2, true), (1, true)], [(2, false), (1, false)],
-     [(3, false), (1, true)], [(3, false), (2, true)], [(1, false), (2, false), (3, true)],
-     [(5, false), (3, true), (4, true)], [(3, false), (5, true)], [(4, false), (5, true)],
-     [(5, true)]] := by decide
-example : ∃ σ, Sat σ (tseitin exForm) :=
-  (tseitin_equisat exForm).mpr ⟨fun n => n == 1, by decide⟩
-example : ¬ ∃ σ, Sat σ (tseitin (.and (.atom 0) (.not (.atom 0)))) := by
-  rw [tseitin_equisat]; rintro ⟨ρ, h⟩; simp [Form.eval] at h
+/-- Freshness: no variable of the CNF is a variable of the formula (atoms and auxiliary variables
+share one name space in the model, as in the Python). -/
+theorem tseitin_names_fresh {f : Form} {extra : List Nat} {o : List Form} {cnf : CNF}
+    (h : tseitinOrd f extra o = some cnf) : ∀ cl ∈ cnf, ∀ l ∈ cl, l.1 ∉ f.names ++ extra :=
+  tseitinOrd_fresh h
+
+/-- `(a ∧ false) ∨ (b ⟷ true)` with `a` = name 1, `b` = name 3: seven subterms, 13 clauses -/
+def exForm : Form := .or (.and (.atom 1) .ff) (.iff (.atom 3) .tt)
+theorem exForm_run : tseitin exForm = some
+    [[(4, false)],
+     [(6, false), (2, true)], [(6, false), (4, true)], [(2, false), (4, false), (6, true)],
+     [(10, true)],
+     [(12, false), (8, false), (10, true)], [(12, false), (8, true), (10, false)],
+     [(12, true), (8, false), (10, false)], [(12, true), (8, true), (10, true)],
+     [(14, false), (6, true), (12, true)], [(6, false), (14, true)], [(12, false), (14, true)],
+     [(14, true)]] := by decide
+example : ∃ σ, Sat σ ((tseitin exForm).getD []) := by
+  rw [exForm_run]; exact (tseitin_equisat exForm_run).mpr ⟨fun n => n == 3, by decide⟩
+example : ∀ cnf, tseitin (.and (.atom 1) (.not (.atom 1))) = some cnf → ¬ ∃ σ, Sat σ cnf := by
+  intro cnf h; rw [tseitin_equisat h]; rintro ⟨ρ, h⟩; simp [Form.eval] at h
+
+/-- `a ∧ ¬x1` (`a` = name 1, `x1` = name 2): with the fix the auxiliary names start at `x2`. -/
+def clashForm : Form := .and (.atom 1) (.not (.atom 2))
+example : tseitin clashForm = some
+    [[(8, true), (6, true)], [(8, false), (6, false)],
+     [(10, false), (4, true)], [(10, false), (8, true)], [(4, false), (8, false), (10, true)],
+     [(10, true)]] := by decide
+
+/-- Before the fix (`x1..xn` whatever the formula mentions) the same formula, which is
+satisfiable, gets an unsatisfiable CNF: the atom `x1` is identified with the variable introduced
+for `a`, the rewriting stops at `x2 ∧ x3`, and `x3 ⟷ ¬x2` is among the clauses.  (This is what the
+unfixed `tseitin.encode` returns: `[x3∨x2] [¬x3∨¬x2] [¬x4∨x1] [¬x4∨x3] [¬x1∨¬x3∨x4] [x2] [x3]`.) -/
+theorem tseitin_name_clash_counterexample :
+    ∃ cnf, tseitinUnfixed clashForm [] = some cnf ∧ (¬ ∃ σ, Sat σ cnf) ∧
+      (∃ ρ, Form.eval ρ clashForm = true) := by
+  refine ⟨[[(6, true), (4, true)], [(6, false), (4, false)], [(8, false), (2, true)],
+    [(8, false), (6, true)], [(2, false), (6, false), (8, true)], [(4, true)], [(6, true)]],
+    by decide, ?_, ⟨fun n => n == 1, by decide⟩⟩
+  exact checkProofs_sound (ps := [(7, [6, 1, 5])]) (by decide)
 
 end Holpy.C15
